@@ -11,7 +11,7 @@
    - [msg_ok w m]: delta updates name an existing set, add only absent / remove only present members;
      removals name existing objects; full updates list no member twice. *)
 From stdpp Require Import gmap.
-From Verif.C02 Require Import Model Spec Proofs ProofsLoop.
+From Verif.C02 Require Import Model Spec Proofs ProofsLoop Meets ModelX ProofsX.
 
 (* After EVERY single emitted message the dataplane is reference-closed. *)
 Theorem c02_refs_present : forall late h q ms a m b,
@@ -69,9 +69,46 @@ Print Assumptions c02_loop_no_panic.
 
 (* The full statement is FALSE of the faithful model with the order of the code as it stands: a history
    inside the plain contract whose stream is rejected (a VTEP is removed while a route still needs it). *)
-Theorem c02_vtep_retarget_refuted : contract world0 retarget_history /\ refuted_check = true.
-Proof. exact retarget_refuted. Qed.
+Theorem c02_vtep_retarget_refuted :
+  contract world0 retarget_history /\
+  exists q ms, seq_run false seq0 retarget_history = Some (q, ms) /\ ~ stream_ok world0 ms.
+Proof. exact retarget_refuted_exists. Qed.
 Print Assumptions c02_vtep_retarget_refuted.
+
+(* The specification oracle accepts every run of the model: for every history inside the contract the model
+   runs, and the trace it produces (callbacks + the model's messages at each flush) passes [ok_trace] - the
+   oracle the check applies to the implementation - and [in_contract]. *)
+Theorem c02_model_meets_spec : forall late h,
+  contract_gen late world0 world0 h ->
+  exists t, trace_of late seq0 h = Some t /\ ok_trace world0 world0 t = true /\ in_contract world0 t = true.
+Proof. exact model_meets_spec. Qed.
+Print Assumptions c02_model_meets_spec.
+
+(* ---- the complete sequencer (ModelX.v: + ready flag, config, encapsulation, BGP config, wireguard) ---- *)
+(* Restricted to the message kinds of Model.v, a run of the complete sequencer IS a run of Model.v on the
+   restricted history: all theorems above speak about the complete Flush(). *)
+Theorem c02_x_projection : forall late h x x' ms,
+  xseq_run late x h = Some (x', ms) -> seq_run late (x_q x) (xproj h) = Some (x_q x', xbase ms).
+Proof. exact xseq_run_proj. Qed.
+Print Assumptions c02_x_projection.
+
+Theorem c02_x_stream_ok : forall late h x ms,
+  contract_gen late world0 world0 (xproj h) -> xseq_run late xst0 h = Some (x, ms) -> stream_ok world0 (xbase ms).
+Proof. exact x_stream_ok. Qed.
+Print Assumptions c02_x_stream_ok.
+
+(* the extra callbacks never panic: the complete sequencer runs whenever its Model.v part does *)
+Theorem c02_x_no_panic : forall late h x,
+  is_Some (seq_run late (x_q x) (xproj h)) -> is_Some (xseq_run late x h).
+Proof. exact x_no_panic. Qed.
+Print Assumptions c02_x_no_panic.
+
+(* every wireguard endpoint remove (v4 and v6) names an endpoint the dataplane has - for ALL histories (no
+   contract needed), and the sequencer's sentWireguard/sentWireguardV6 are exactly the dataplane's endpoints *)
+Theorem c02_wireguard_removes_exist : forall late h x x' ms,
+  xseq_run late x h = Some (x', ms) -> wg_stream_ok (wgof x) ms /\ apply_wgs (wgof x) ms = wgof x'.
+Proof. exact x_wg_ok. Qed.
+Print Assumptions c02_wireguard_removes_exist.
 
 (* hypotheses are satisfiable by a non-trivial history: the refutation witness itself satisfies the contract
    of the repaired order *)
